@@ -38,16 +38,27 @@ def run(ctx):
         base_h = worldgen.Hist(g, rng, {"pool": POOL, "setm": lookups.EDIT_SETM})
         base_h.setup_pool()
         base_h.build_some_structure(0.85)
+        aimed = []
         for _ in range(ln):
-            if rng.random() < 0.15:
+            r = rng.random()
+            if r < 0.15:
                 lookups.burst(base_h, rng)
+            elif r < 0.19:
+                aimed += lookups.grow_edit(base_h, rng)
+                ctx.count("grow_through_initialized_size")
             else:
                 lookups.edit_step(base_h, rng, WEIGHTS)
+        if rng.random() < 0.5:
+            # ... and as one of the very last edits, when the schedules that issued lookups have their indexes built
+            aimed = lookups.grow_edit(base_h, rng)
+            ctx.count("grow_through_initialized_size_last")
+            for _ in range(rng.choice([0, 0, 1])):
+                lookups.edit_step(base_h, rng, WEIGHTS)
         base = list(base_h.items)
-        # fixed battery drawn from the final state
+        # fixed battery drawn from the final state (plus the lookups aimed at parts that grew through initialized_size)
         n0 = len(base_h.items)
         lookups.battery(base_h, rng, METHODS, 40)
-        battery = base_h.items[n0:]
+        battery = base_h.items[n0:] + aimed[-16:]
         schedules = {
             "none": lambda i: 0,
             "every": lambda i: 1,
